@@ -1667,6 +1667,13 @@ process(PseudoTcpSocket *self, Segment *seg)
     priv->ts_recent = seg->tsval;
   }
 
+  /* For the moment, FIN segments must not contain data: ignore such a segment
+   * entirely, before its acknowledgement number has any effect. */
+  if (priv->support_fin_ack && seg->flags & FLAG_FIN && seg->len != 0) {
+    DEBUG (PSEUDO_TCP_DEBUG_NORMAL, "FIN segment contained data; ignored");
+    return FALSE;
+  }
+
   // Check if this is a valuable ack
   is_valuable_ack = (LARGER(seg->ack, priv->snd_una) &&
       SMALLER_OR_EQUAL(seg->ack, priv->snd_nxt));
